@@ -262,13 +262,16 @@ example : fps (runHistory demo5).out = fps [(9, Reply.queued)] ∧
     fps (stepEv (runHistory demo5) (.request {} 9 [strBytes "EXEC"] [11] [])).out.reverse =
       fps [(7, chanMsg [2] [77]), (7, chanMsg [1] [78]), (9, .arr [.int 1, .int 1])] := by decide +kernel
 
-/-- KF-1 (excluded above by asking for a queue of PUBLISH commands / `QuietFrom`): (P)SUBSCRIBE queued inside MULTI
-makes EXEC crash (`assert valid_response_type`), and the connection is dead afterwards — the subscription itself
-has been made -/
+/-- KF-1, fixed: (P)SUBSCRIBE inside MULTI is refused at queue time ("Command not allowed inside a transaction"),
+so it never reaches EXEC: EXEC answers EXECABORT, nothing crashes, the connection is alive and in normal mode, and
+no subscription has been made.  (Before the fix this history ended with `crashed = some "AssertionError"`, the
+connection dead and the subscription made; the theorems above exclude it by asking for a queue of PUBLISH commands /
+`QuietFrom`, which remains sound.) -/
 example :
     let s := runHistory [.open 7, .request {} 7 [strBytes "MULTI"] [5] [],
       .request {} 7 [strBytes "SUBSCRIBE", [1]] [6] [], .request {} 7 [strBytes "EXEC"] [7] []]
-    s.crashed = some "AssertionError" ∧ (s.conn 7).dead = true ∧ s.srv.subs = [([1], [7])] := by decide +kernel
+    s.crashed = none ∧ s.fault = none ∧ (s.conn 7).dead = false ∧ (s.conn 7).tx = none ∧ (s.conn 7).pubsub = 0 ∧
+      s.srv.subs = [] ∧ fps s.out = fps [(7, .err (strBytes Msgs.EXECABORT_MSG))] := by decide +kernel
 
 /-! ## 6. subscriber mode -/
 
